@@ -120,11 +120,14 @@ def standin(tier, seed):
         drive(ref_sim, "run", 2)
         pre = "# log of an earlier run\n   0   1.0\n"
         for how in (("run", "srun", "irun") if kind == "mc" else ("run", "irun")):
-            sim, _, log, _ = make(kind, (1,), prefill=pre)
-            drive(sim, how, 1)
-            drive(sim, how, 1)
             case = {"driver": kind, "entry": how, "log_already_holds_text": True}
             V.case(case)
+            try:
+                sim, _, log, _ = make(kind, (1,), prefill=pre)
+                drive(sim, how, 1)
+                drive(sim, how, 1)
+            except Exception as e:  # noqa: BLE001
+                V.add("appending:raises", case, repr(e)); continue
             if log.getvalue() != pre + ref_log.getvalue():
                 V.add("header_once_before_first_row_when_appending", case, f"{log.getvalue()[len(pre):][:120]!r} instead of {ref_log.getvalue()[:120]!r}")
     return V.result(bound=f"appending to a log that already holds text; 2 drivers x {len(interval_sets)} observer tables x all splittings of {nmax} steps into 2 and 3 parts (zeros included) x entry points")
